@@ -72,6 +72,36 @@ static int lib_decode(const char *s, uint64_t *t, unsigned char *imp, size_t *il
 	return 1;
 }
 
+/* decoded objects kept alive while further strings are decoded and other objects are released (several in a row): each must keep
+ * its time and imprint and encode back to its string, whatever the size of the context's data-hash recycle pool */
+#define NLIVE 12
+static struct { KSI_PublicationData *pd; uint64_t t; unsigned char imp[80]; size_t il; char str[200]; } live[NLIVE]; static int nlive;
+static void live_check(const char *when) {
+	int i; for (i = 0; i < nlive; i++) {
+		KSI_Integer *ti = NULL; KSI_DataHash *h = NULL; const unsigned char *p = NULL; size_t n = 0; char *enc = NULL; int bad = 0;
+		KSI_PublicationData_getTime(live[i].pd, &ti); KSI_PublicationData_getImprint(live[i].pd, &h);
+		if (KSI_Integer_getUInt64(ti) != live[i].t) bad = 1;
+		if (KSI_DataHash_getImprint(h, &p, &n) != KSI_OK || n != live[i].il || memcmp(p, live[i].imp, n)) bad |= 2;
+		if (KSI_PublicationData_toBase32(live[i].pd, &enc) != KSI_OK || enc == NULL || strncmp(enc, live[i].str, strlen(live[i].str)) != 0) bad |= 4;
+		KSI_free(enc);
+		vh_eval++;
+		if (bad) { vh_viol("pubstr:live-object-changed", live[i].str, "an object decoded earlier from this string no longer holds its data %s (time %d imprint %d re-encoding %d)", when, bad & 1, (bad >> 1) & 1, (bad >> 2) & 1); KSI_PublicationData_free(live[i].pd); live[i] = live[--nlive]; i--; }
+		else vh_count("live_objects_rechecked", 1);
+	}
+}
+static void live_step(const char *ref, uint64_t t, const unsigned char *imp, size_t il) {
+	KSI_PublicationData *pd = NULL; int k;
+	if (strlen(ref) >= sizeof live[0].str) return;
+	if (nlive == NLIVE || (nlive > 3 && vh_below(3) == 0)) {
+		/* release 1..5 objects in a row, no allocation in between */
+		k = 1 + (int)vh_below(5); while (k-- > 0 && nlive > 0) { int j = (int)vh_below((uint64_t)nlive); KSI_PublicationData_free(live[j].pd); live[j] = live[--nlive]; }
+		live_check("after releasing other objects");
+	}
+	if (KSI_PublicationData_fromBase32(ctx, ref, &pd) != KSI_OK || !pd) return;
+	live[nlive].pd = pd; live[nlive].t = t; memcpy(live[nlive].imp, imp, il); live[nlive].il = il; strcpy(live[nlive].str, ref); nlive++;
+	live_check("after decoding another string");
+}
+
 static void check_mutant(const char *kind, const char *orig, const char *mut, const unsigned char *bin, size_t bl, uint64_t t) {
 	/* mutant made of alphabet symbols only: must be rejected unless the bytes it encodes are identical */
 	static unsigned char dec[4096], imp[128]; size_t il; uint64_t t2; long dl; int acc; char key[128];
@@ -119,6 +149,7 @@ static void one_string(uint64_t t, int ai) {
 	if (!lib_decode(ref, &t2, imp, &il)) { vh_viol("pubstr:valid-rejected", ref, "valid reference string rejected (alg %d)", alg); return; }
 	if (t2 != t || il != dl + 1 || memcmp(imp, bin + 8, il)) vh_viol("pubstr:valid-decodes-differently", ref, "valid string decodes to other data");
 	vh_fp(vh_hash_bytes(ref, strlen(ref)));
+	live_step(ref, t, bin + 8, dl + 1);
 	if (vh_nsample < 4) vh_sample("valid string t=%llu alg=%d: %s (all %zu x 31 substitutions, transpositions, 256 byte values tried)", (unsigned long long)t, alg, ref, strlen(ref));
 	n = strlen(ref);
 	/* B. substitutions */
@@ -238,10 +269,13 @@ int main(int argc, char **argv) {
 	static const uint64_t T[] = {0, 1, 0x7fffffffull, 0x80000000ull, 0xffffffffull, 0x100000000ull, 0x7fffffffffffffffull, 0x8000000000000000ull, 0xffffffffffffffffull, 1400000000ull};
 	vh_seed(seed);
 	if (KSI_CTX_new(&ctx) != KSI_OK) return 3;
+	if (argc > 3 && strcmp(argv[3], "default")) { if (KSI_CTX_setOption(ctx, KSI_OPT_DATAHASH_CACHE_SIZE, (void *)(size_t)strtoul(argv[3], NULL, 10)) != KSI_OK) return 3; vh_count("runs_with_nondefault_recycle_pool", 1); }
 	for (i = 0; i < n; i++) {
 		uint64_t t = i < 10 ? T[i] : (vh_below(3) == 0 ? vh_rand() : vh_below(3) == 0 ? vh_rand() >> (vh_below(64)) : 1136073600ull + vh_below(1000000000ull));
 		one_string(t, (int)((i + seed) % NKNOWN));
 	}
+	live_check("at the end of the run");
+	while (nlive > 0) KSI_PublicationData_free(live[--nlive].pd);
 	bad_algorithm_cases();
 	raw_codec(n * 40);
 	KSI_CTX_free(ctx);
